@@ -138,14 +138,11 @@ def verdictOf (orig : Rule) : Option Rule → String
 def rtModel (r : Rule) : String :=
   s!"S={verdictOf r (viaSession r)} P={verdictOf r (viaPersistent r)} R={verdictOf r (viaRestart r)} T={xhexOf (render (printRule r))}"
 
-/-- identifying predicate of the defect family a non-identity falls into (first that applies). -/
+/-- identifying predicate of the one defect family left: the catalog serialisation drops vector literals.
+    (Repaired families — integral_float_literal, sci_tail_variable, atom_arg_ends_paren, the boolean / call
+    part of serialize_drops_term, nonfinite_float_json, json_float_inexact — are `unclassified` again.) -/
 def classOf (r : Rule) (path : String) : String :=
-  if !r.litStable then "integral_float_literal"
-  else if r.sciHidden then "sci_tail_variable"
-  else if r.atomParen then "atom_arg_ends_paren"
-  else if path != "S" && !r.serStable then "serialize_drops_term"
-  else if path == "R" && !r.jsonOk then "nonfinite_float_json"
-  else if path == "R" && !r.jsonExact then "json_float_inexact"
+  if path != "S" && !r.serStable then "serialize_drops_term"
   else "unclassified"
 
 /-- Spec: every path hands the engine the rule that was submitted.  A failure is attributed to a known
@@ -202,17 +199,20 @@ def builtins : Handler := fun _ impl =>
   let m := joinWith "," (sortBy (fun a b => decide (a ≤ b)) builtinNames)
   { model := m, spec := if impl == m then specOk else specFail "unclassified" "builtin-table-differs", nt := true }
 
-/-- `c09.lit <bits>`: is `format!("{}", f)` read back as an integer?  Model: from the bits alone. -/
+/-- `c09.lit <bits>`: what does the printed literal (`Display for Term`) re-parse as?  Since the printer
+    uses `{:?}`: a float, for every finite value. -/
 def lit : Handler := fun args impl =>
   match args with
   | [b] =>
     match hexToNat b with
-    | some n =>
-      let m := if bitsStable n then "float" else "int"
-      { model := m, spec := if impl == m then specOk else specFail "unclassified" "literal-class-differs", nt := f64Integral n || f64Exp n ≥ 1075 }
+    | some _ => { model := "float", spec := if impl == "float" then specOk else specFail "unclassified" ("float-literal-reparsed-as-" ++ impl), nt := true }
     | none => badReq
   | _ => badReq
 
-def handlers : List (String × Handler) := [("c09.rt", rt), ("c09.e2e", e2e), ("c09.builtins", builtins), ("c09.lit", lit)]
+/-- `c09.reject <source>`: sources with a non-finite float constant are not in the parser's image. -/
+def reject : Handler := fun _ impl =>
+  { model := "rejected", spec := if impl == "rejected" then specOk else specFail "unclassified" "non-finite-float-constant-accepted", nt := true }
+
+def handlers : List (String × Handler) := [("c09.reject", reject), ("c09.rt", rt), ("c09.e2e", e2e), ("c09.builtins", builtins), ("c09.lit", lit)]
 
 end ILV.Drv.C09
